@@ -203,7 +203,7 @@ def exponent(ctx):
   ev = evaluator(m, opaque={'should_precondition_dims'})
   r = ev.run(fi)
   cmpr = Comparer()
-  selfp = sym('param', fi.short, 'self')
+  selfp = T('obj', fi.cls.fq, 'self')
   exp = spec_term(ev, '2 * sum(self.should_precondition_dims())', {'self': selfp})
   # the opaque method call has the receiver as first positional argument
   got = r
